@@ -231,6 +231,16 @@ func faultRunners() []faultRunner {
 				old[i].Xi = new(big.Int).Set(old[i].Xi)
 				edOld = append(edOld, old[i].Xi)
 			}
+			// committee shapes: 0 = 2 old -> 3 new; 1 = 3 old -> 2 new; 2 = 2 old -> 4 new (index bounds differ between the committees)
+			switch faultShape {
+			case 1:
+				old = append(old, ks[2])
+				old[2].Xi = new(big.Int).Set(old[2].Xi)
+				edOld = append(edOld, old[2].Xi)
+				return buildEdDSAReshareOpt(old, subsetPIDs(pids, 3), 3, 1, reshareOpts{newKeys: defaultKeys(2, 700), newT: 1, seed: fmt.Sprintf("f-%d", seed)}, false)
+			case 2:
+				return buildEdDSAReshareOpt(old, subsetPIDs(pids, 2), 3, 1, reshareOpts{newKeys: defaultKeys(4, 700), newT: 1, seed: fmt.Sprintf("f-%d", seed)}, false)
+			}
 			return buildEdDSAReshareOpt(old, subsetPIDs(pids, 2), 3, 1, reshareOpts{newKeys: defaultKeys(3, 700), newT: 1, seed: fmt.Sprintf("f-%d", seed)}, false)
 		},
 		judge: func(rc *runCtx, honest []*sched.Node) string {
@@ -273,7 +283,9 @@ func faultRunners() []faultRunner {
 				old[i].Xi = new(big.Int).Set(old[i].Xi)
 				ecOld = append(ecOld, old[i].Xi)
 			}
-			return buildECDSAReshareOpt(old, subsetPIDs(pids, 3), 5, 2, reshareOpts{newKeys: defaultKeys(3, 900), newT: 1, seed: fmt.Sprintf("f-%d", seed)}, false)
+			// committee shapes: 0 = 3 old -> 3 new; 1 = 3 old -> 2 new; 2 = 3 old -> 4 new
+			nNew := []int{3, 2, 4}[faultShape%3]
+			return buildECDSAReshareOpt(old, subsetPIDs(pids, 3), 5, 2, reshareOpts{newKeys: defaultKeys(nNew, 900), newT: 1, seed: fmt.Sprintf("f-%d", seed)}, false)
 		},
 		judge: func(rc *runCtx, honest []*sched.Node) string {
 			var hn []*sched.Node
@@ -396,13 +408,70 @@ func judgeECDSASig(rc *runCtx, honest []*sched.Node, key ecdsakeygen.LocalPartyS
 }
 
 // runFault executes one fault and summarises what the honest parties did.
+// faultShape selects the committee sizes of the resharing runners (set per fault, read by build).
+var faultShape int
+
 func runFault(fr faultRunner, f fault, seed int64) faultResult {
 	t0 := time.Now()
+	faultShape = 0
+	if f.Field == "inject" {
+		// injected messages probe index bounds: use committees of different sizes, in both directions
+		faultShape = 1 + int(seed%2)
+	}
+	if f.Kind == "index-sweep" {
+		faultShape = f.Index
+	}
+	shape := faultShape
 	rc := fr.build(seed)
+	faultShape = 0
 	net := rc.net
 	net.Rng = rand.New(rand.NewSource(seed))
 	rng := rand.New(rand.NewSource(seed * 31))
 	res := faultResult{Fault: f, Culprits: map[string][]string{}, ErrText: map[string]string{}}
+	if f.Kind == "index-sweep" {
+		// one honest run to collect one wire of every message type, then every wire is offered to every party of a FRESH
+		// set of parties (not started: the message is validated and filed, nothing is computed) under every sender index
+		// from 0 to two beyond the larger committee, as broadcast and as point-to-point, from both committees' identities
+		type rec struct {
+			wire  []byte
+			bcast bool
+			from  *tss.PartyID
+		}
+		wires := map[string]rec{}
+		net.Tamper = func(c *sched.Copy) {
+			if _, ok := wires[c.Type]; !ok {
+				wires[c.Type] = rec{append([]byte{}, c.Wire...), c.Bcast, c.From.PID}
+			}
+		}
+		net.Run(sched.FIFO, 200000)
+		faultShape = shape
+		fresh := fr.build(seed + 1)
+		faultShape = 0
+		max := len(fresh.net.Old)
+		if len(fresh.net.New) > max {
+			max = len(fresh.net.New)
+		}
+		var tnames []string
+		for t := range wires {
+			tnames = append(tnames, t)
+		}
+		sort.Strings(tnames)
+		for _, n := range fresh.net.Nodes() {
+			for _, t := range tnames {
+				w := wires[t]
+				for idx := 0; idx <= max+2; idx++ {
+					pid := tss.NewPartyID(w.from.Id, w.from.Moniker, w.from.KeyInt())
+					pid.Index = idx
+					_, _ = n.Party.UpdateFromBytes(w.wire, pid, w.bcast)
+					_, _ = n.Party.UpdateFromBytes(w.wire, pid, !w.bcast)
+					res.Applied += 2
+				}
+			}
+			_ = n.Party.WaitingFor()
+		}
+		res.Wall = time.Since(t0).Seconds()
+		return res
+	}
 	seen := map[string][]byte{}    // last wire per "type/sender/recipient-independent"
 	altered := map[string][]byte{} // original wire -> altered wire: every copy of one broadcast is altered identically (no equivocation)
 	injected := false
@@ -429,10 +498,13 @@ func runFault(fr faultRunner, f fault, seed int64) faultResult {
 			}
 			orig := string(c.Wire)
 			defer func() { altered[orig] = c.Wire }()
+			// the donor is the same-type message of the peer with the highest name (deterministic; for mirroring this makes a
+			// deviator with a lower index copy a peer with a higher one whenever there is one)
 			var donor []byte
+			donorKey := ""
 			for k, w := range seen {
-				if strings.HasPrefix(k, c.Type+"/") && k != key {
-					donor = w
+				if strings.HasPrefix(k, c.Type+"/") && k != key && k > donorKey {
+					donor, donorKey = w, k
 				}
 			}
 			if f.Kind == "mirror" {
@@ -653,6 +725,18 @@ func faultList(fr faultRunner, tier, prop string) []fault {
 		}
 		all = append(all, f)
 	}
+	if prop == "C06" {
+		// index sweeps: one per committee shape (resharing has three shapes, the others one)
+		shapes := []int{0}
+		if strings.HasSuffix(fr.proto, "resharing") {
+			shapes = []int{0, 1, 2}
+		}
+		var sw []fault
+		for _, sh := range shapes {
+			sw = append(sw, fault{fr.proto, "-", "*", "inject", sh, "index-sweep"})
+		}
+		all = append(sw, all...)
+	}
 	if thorough || fr.cost <= 2 {
 		return all
 	}
@@ -662,7 +746,11 @@ func faultList(fr faultRunner, tier, prop string) []fault {
 		// the expensive protocols only get the injection faults of their first message type in the quick tier
 		var inj []fault
 		for _, f := range all {
-			if f.Field == "inject" && (len(inj) == 0 || inj[0].Type == f.Type && inj[0].Deviator == f.Deviator) {
+			if f.Kind == "index-sweep" {
+				inj = append(inj, f)
+				continue
+			}
+			if f.Field == "inject" && (len(inj) == 0 || inj[len(inj)-1].Kind == "index-sweep" || inj[len(inj)-1].Type == f.Type && inj[len(inj)-1].Deviator == f.Deviator) {
 				inj = append(inj, f)
 			}
 		}
@@ -677,6 +765,10 @@ func faultList(fr faultRunner, tier, prop string) []fault {
 		}
 		// the recorded known finding (duplicate h1/h2 blame) is re-confirmed on every run
 		if prop == "C05" && f.Proto == "ecdsa_keygen" && f.Type == "KGRound1Message" && f.Kind == "mirror" {
+			forced = append(forced, f)
+		}
+		// the same pairwise check exists in ECDSA resharing round 4 (Gen/BlameSites.v pairwise_sites)
+		if prop == "C05" && f.Proto == "ecdsa_resharing" && f.Type == "DGRound2Message1" && f.Kind == "mirror" {
 			forced = append(forced, f)
 		}
 	}
